@@ -37,6 +37,7 @@ package certstore
 //@             && len(argOf(ApplyPowerTableDiffs, 1, 1)) == 1 && argOf(ApplyPowerTableDiffs, 1, 1)[0] == cert.PowerTableDelta,
 //@          newPowerTable == cs.latestPowerTable)
 //@     before[never_an_empty_table] len(newPowerTable) != 0
+//@     before[a_certificate_for_the_bottom_chain_is_never_admitted] !res(IsZero, 1) && argOf(IsZero, 1, 0) == cert.ECChain
 //@     before[certificate_written_under_its_own_instance_key] arg(1) == res(keyForCert, 1) && argOf(keyForCert, 1, 1) == cert.GPBFTInstance && res(MarshalCBOR, 1) == nil
 //@   at putPowerTable 1
 //@     before[checkpoint_after_the_certificate] dominatedBy(Put, 1) && res(Put, 1) == nil
@@ -227,4 +228,4 @@ package certstore
 //@   at chansend 1
 //@     before[a_new_subscriber_first_sees_the_latest_certificate_in_a_one_slot_channel] chancap(arg(0)) == 1 && arg(1) == cs.latestCertificate && cs.latestCertificate != nil
 //@   at return 0
-//@     before[the_registered_channel_is_the_one_returned] has(cs.subscribers, arg(0)) && chancap(arg(0)) == 1
+//@     before[the_registered_channel_is_the_one_returned] has(cs.subscribers, arg(0)) && chancap(arg(0)) == 1 && (cs.latestCertificate != nil ==> called(chansend, 1))
